@@ -36,6 +36,11 @@ def make_wl(rng, k):
     if mode == "file":
         # the documented table layouts: file:<path>[:<read col>:<group col>[:<delim>]], plain or gzipped
         opts["group_table_fmt"] = [None, "2:1:tab:gz:short", "2:0:comma", "1:3:semi:gz", "3:1:space", "1:0:tab"][(i // 4) % 6]
+    if mode == "file" and k is not None and k % 8 == 6:
+        # reads whose primary alignment is ambiguous between isoforms while the secondary alignment on the paralog (another
+        # chromosome) is the one that is counted: the per-chromosome tables must know the read wherever it has a record
+        spec.update(paralog_iso=1, paralogs=2, secondary_seq=1, genes_per_chr=max(3, spec.get("genes_per_chr", 3)))
+        spec["n_chr"] = max(3, spec.get("n_chr", 3))
     if mode == "tag":
         spec["group_tag"] = ["RG", "XG", "RG", "HP"][(i // 4) % 4]
         if (i // 4) % 4 == 2:
